@@ -415,6 +415,92 @@ def sigint_findings(mod, worker_inits=()):
     return out, ncalls
 
 
+def rule_r8(chk, prog):
+    chk.rule('C06.R8', 'the paths the user gave are the paths ddSMT works '
+             'with: the input-file and output-file options are not '
+             'reassigned after parsing, except to an absolute / normalised '
+             'spelling of the same option (no symlink resolution, no value '
+             'derived from the other path)')
+    pv = Provenance(prog)
+    n = 0
+    for m in prog.pkg_modules():
+        if 'tests' in m.rel() or m.name == 'options':
+            continue
+        for st in ast.walk(m.tree):
+            tg = []
+            if isinstance(st, ast.Assign):
+                tg = st.targets
+            elif isinstance(st, ast.AugAssign):
+                tg = [st.target]
+            for t in tg:
+                o = opt_read(t)
+                if o not in ('infile', 'outfile'):
+                    continue
+                n += 1
+                fn = st
+                while fn is not None and not isinstance(fn,
+                                                        ast.FunctionDef):
+                    fn = getattr(fn, '_parent', None)
+                val = st.value
+                prov = pv.of(m, fn, val)
+                want = 'INFILE' if o == 'infile' else 'OUTFILE'
+                resolving = [c for c in ast.walk(val) if isinstance(
+                    c, ast.Call) and (call_name(c) or '').split('.')[-1] in (
+                        'realpath', 'readlink', 'resolve', 'samefile')]
+                # locals: follow one level for the resolving calls
+                if fn is not None:
+                    for x in ast.walk(val):
+                        if isinstance(x, ast.Name):
+                            for d in ast.walk(fn):
+                                if isinstance(d, ast.Assign) and any(
+                                        isinstance(t2, ast.Name)
+                                        and t2.id == x.id
+                                        for t2 in d.targets):
+                                    resolving += [
+                                        c for c in ast.walk(d.value)
+                                        if isinstance(c, ast.Call) and (
+                                            call_name(c) or '').split(
+                                                '.')[-1] in ('realpath',
+                                                             'readlink',
+                                                             'resolve')]
+                # the other path must not flow into this one at all (not
+                # even as a "fragment" such as its base name)
+                other = 'infile' if o == 'outfile' else 'outfile'
+                seen_n, work_e, mixes = set(), [val], False
+                while work_e:
+                    e_ = work_e.pop()
+                    for x in ast.walk(e_):
+                        if opt_read(x) == other:
+                            mixes = True
+                        if isinstance(x, ast.Name) and fn is not None and \
+                                x.id not in seen_n:
+                            seen_n.add(x.id)
+                            for d in ast.walk(fn):
+                                if isinstance(d, ast.Assign) and any(
+                                        isinstance(t2, ast.Name)
+                                        and t2.id == x.id
+                                        for t2 in d.targets):
+                                    work_e.append(d.value)
+                if mixes:
+                    prov = set(prov) | {f'mentions {other}'}
+                ok = prov == {want} and not resolving
+                chk.check('C06.R8', f'{m.name}.'
+                          f'{fn._qualname if fn is not None else ""}', st,
+                          ok, f'"{unparse(st)[:70]}" replaces the {o} '
+                          f'option by a value with provenance '
+                          f'{sorted(prov)}'
+                          + (' through symlink resolution' if resolving
+                             else '')
+                          + ': the file that is read, written or handed to '
+                          'the command is no longer the one the user named '
+                          '(an output derived from the input\'s name can be '
+                          'the input itself; a resolved input has another '
+                          'name and extension)', loc=m.loc(st),
+                          nontrivial=True)
+    chk.instance('C06.R8', 'scope', f'{n} reassignments of the path options',
+                 True, 'zero-count rule (witnesses: C01_30, C09_30)')
+
+
 def rule_r6(chk, prog):
     chk.rule('C06.R6', 'the main process keeps Python\'s SIGINT disposition '
              '(KeyboardInterrupt): it is never set to SIG_DFL, and ignored '
@@ -483,6 +569,7 @@ def run(tier):
     from . import c05
     chk.guard(c05.rule_adopt_write, chk, prog, 'C06.R5')
     chk.guard(rule_r6, chk, prog)
+    chk.guard(rule_r8, chk, prog)
     # nobody else publishes anything: a write of the output file outside
     # the adoption sites (say, in a finally block of the driver) replaces
     # the last accepted input by something older (shared with C01.R2)
